@@ -245,6 +245,7 @@ theorem KLInv_cerNameAndElect (s : St) (cid : Nat) (hn : String) (h : KLInv s) :
 /-! ### the receive path -/
 
 
+set_option maxHeartbeats 1000000 in
 theorem KLInv_receiveCer (s : St) (cid : Nat) (m : AMsg) (info : MsgInfo) (h : KLInv s) : KLInv (receiveCer s cid m info).1 := by
   unfold receiveCer
   have he := fun hn => KLInv_cerNameAndElect s cid hn h
@@ -257,6 +258,7 @@ theorem KLInv_receiveCer (s : St) (cid : Nat) (m : AMsg) (info : MsgInfo) (h : K
     | exact KLInv_sendMessage _ _ _ _ (hm _ _ (he _) (by tame))
     | exact KLInv_sendMessage _ _ _ _ (KLInv_flagReady _ _ (KLInv_assignPeerConnection _ _ (hm _ _ (he _) (by tame))))
     | split
+    | exact hm _ _ (he _) (by tame)
     | dsimp only)
 
 
